@@ -32,11 +32,14 @@ var c26Assumptions = []string{
 	"ordered comparison only when ORDER BY ends in the whole primary key of every joined table; otherwise multisets and no LIMIT",
 	"GROUP BY / DISTINCT / MIN / MAX never project a column with a case- or accent-insensitive collation (which representative of collation-equal strings is returned is unspecified); DISTINCT over such columns is compared through COUNT(*)",
 	"join conditions only between columns of the same type class (integers of any width/signedness; same collation for strings)",
-	"dolt's background statistics worker is stopped (dolt_stats_stop) so that plans, and therefore the recorded plan classes, do not depend on timing; ANALYZE TABLE is issued explicitly in some cases",
+	"dolt's background statistics worker is stopped (dolt_stats_stop) so that plans, and therefore the recorded plan classes, do not depend on timing; ANALYZE TABLE is issued explicitly (on dolt only) in some cases",
 	"single-column UNIQUE indexes are not generated (a generated row must never be rejected); UNIQUE indexes always contain the primary key",
 	"while finding " + c26FindValueRowNull + " is listed open, a disagreement where dolt's plan has a Filter whose whole condition is a single <= or >= comparison and dolt's rows are a superset of the reference rows is attributed to it (counted as excluded_known); the pinned sub-test reports it",
+	"grammar exclusion (go-mysql-server bug shared by both engines, visible only when the two planners pick different plans): predicate literals for DECIMAL columns never take the extreme values of the type (`deccol <> 99999999.99` on an indexed column becomes the range (NULL, ∞) with the filter dropped); replaced literals are counted as excluded_known",
 	"while finding " + c26FindDecimalLookup + " is listed open, a disagreement on a join whose ON equality is between DECIMAL columns and whose dolt plan contains a LookupJoin is attributed to it (counted as excluded_known); the pinned sub-test reports it",
 	"while finding " + c26FindKeylessLookupNull + " is listed open, a disagreement on a join that involves a keyless table and whose dolt plan contains a LookupJoin is attributed to it (counted as excluded_known); the pinned sub-test reports it",
+	"while finding " + c26FindMergePrefix + " is listed open, a disagreement on a join over a table that has a prefix index and whose dolt plan contains a MergeJoin is attributed to it (counted as excluded_known); the pinned sub-test reports it",
+	"while finding " + c26FindLookupPrefix + " is listed open, a disagreement on a join over a table that has a prefix index and whose dolt plan contains a LookupJoin is attributed to it (counted as excluded_known); the pinned sub-test reports it",
 	"while finding " + c26FindKeylessCount + " is listed open, `SELECT COUNT(col) FROM <keyless table>` is not generated (counted as excluded_known); the pinned sub-test reports it",
 }
 
@@ -334,6 +337,52 @@ func c26PinnedKeylessLookupNull(t *testing.T, srv *vsql.Server, admin *vsql.Sess
 	return ""
 }
 
+// c26FindMergePrefix: go-mysql-server plans a merge join over a prefix index (KEY (c(1))); dolt's
+// prefix index is ordered by the prefix only, so the merge misses matches between values that
+// share the prefix (the memory engine's "prefix" index is ordered by the full value).
+const c26FindMergePrefix = "C26-mergejoin-prefix-index"
+
+func c26PinnedMergePrefix(t *testing.T, srv *vsql.Server, admin *vsql.Session) string {
+	db := srv.NewDBName()
+	admin.MustExec(t, "CREATE DATABASE "+db)
+	defer admin.Exec("DROP DATABASE " + db)
+	s := srv.Session(t, "pinned", db)
+	defer s.Close()
+	s.MustExec(t, "CREATE TABLE t0 (k0 INT PRIMARY KEY, c0 VARBINARY(16) NOT NULL, KEY i2 (c0(1)))")
+	s.MustExec(t, "INSERT INTO t0 VALUES (1,0x6100),(2,0x61),(3,0x6100),(4,0x61),(5,0x6100),(6,0x61)")
+	q := "SELECT /*+ MERGE_JOIN(a,b) */ COUNT(*) FROM t0 a JOIN t0 b ON a.c0 = b.c0"
+	got, _ := s.Scalar(t, q)
+	if got != "18" {
+		p := s.MustQuery(t, "EXPLAIN PLAN "+q)
+		return fmt.Sprintf("t0(k0 PK, c0 VARBINARY(16), KEY (c0(1))) = {(1,0x6100),(2,0x61),(3,0x6100),(4,0x61),(5,0x6100),(6,0x61)}: %s returned %s want 18; plan %s", q, got, strings.Join(p.Ordered(), " / "))
+	}
+	return ""
+}
+
+// c26FindLookupPrefix: dolt's kv lookup join copies the full outer value into the key of a prefix
+// index (KEY (c(1))) without trimming it to the prefix length: values longer than the prefix
+// never match.
+const c26FindLookupPrefix = "C26-lookupjoin-prefix-index"
+
+func c26PinnedLookupPrefix(t *testing.T, srv *vsql.Server, admin *vsql.Session) string {
+	db := srv.NewDBName()
+	admin.MustExec(t, "CREATE DATABASE "+db)
+	defer admin.Exec("DROP DATABASE " + db)
+	s := srv.Session(t, "pinned", db)
+	defer s.Close()
+	s.MustExec(t, "CREATE TABLE t0 (k0 INT PRIMARY KEY, c0 VARBINARY(16) NOT NULL, KEY i2 (c0(1)))")
+	s.MustExec(t, "CREATE TABLE t1 (k0 INT PRIMARY KEY, c1 VARBINARY(16))")
+	s.MustExec(t, "INSERT INTO t0 VALUES (1,0x6100),(2,0x61),(3,0x62)")
+	s.MustExec(t, "INSERT INTO t1 VALUES (1,0x6100),(2,0x61)")
+	q := "SELECT /*+ JOIN_ORDER(a,b) LOOKUP_JOIN(a,b) */ a.k0, b.k0 FROM t1 a JOIN t0 b ON a.c1 = b.c0"
+	r := s.MustQuery(t, q)
+	if got := vsql.Show(r.Sorted()); got != "(1,1) (2,2)" {
+		p := s.MustQuery(t, "EXPLAIN PLAN "+q)
+		return fmt.Sprintf("t0(k0 PK, c0 VARBINARY(16), KEY (c0(1))) = {(1,0x6100),(2,0x61),(3,0x62)}, t1(k0 PK, c1) = {(1,0x6100),(2,0x61)}: %s returned %s want (1,1) (2,2); plan %s", q, got, strings.Join(p.Ordered(), " / "))
+	}
+	return ""
+}
+
 // c26FindKeylessCount: on a keyless table `SELECT COUNT(col) FROM t` (count fast path of
 // kvexec/count_agg.go) tests the NULL-ness of the value field one position to the left of col
 // (keyless value tuples start with the cardinality field).
@@ -433,6 +482,22 @@ func (c *qCase) runQuery(q qQuery) {
 		mismatch = !vsql.EqualStrings(dr.Ordered(), mr.Ordered())
 	} else {
 		mismatch = !vsql.EqualStrings(dr.Sorted(), mr.Sorted())
+	}
+	if mismatch && q.has("prefix_index_join") && vh.OpenFinding("C26", c26FindMergePrefix) {
+		dp, _ := plan()
+		if strings.Contains(strings.Join(dp, "\n"), "MergeJoin") {
+			c.rec.Excluded(1)
+			c.rec.Class("known:"+c26FindMergePrefix, 1)
+			return
+		}
+	}
+	if mismatch && q.has("prefix_index_join") && vh.OpenFinding("C26", c26FindLookupPrefix) {
+		dp, _ := plan()
+		if strings.Contains(strings.Join(dp, "\n"), "LookupJoin") {
+			c.rec.Excluded(1)
+			c.rec.Class("known:"+c26FindLookupPrefix, 1)
+			return
+		}
 	}
 	if mismatch && q.has("keyless_join") && vh.OpenFinding("C26", c26FindKeylessLookupNull) {
 		dp, _ := plan()
@@ -596,6 +661,26 @@ func TestVerif_C26(t *testing.T) {
 			t.Errorf("%s", msg)
 		}
 	})
+	t.Run("pinned_mergejoin_prefix_index", func(t *testing.T) {
+		if msg := c26PinnedMergePrefix(t, srv, admin); msg != "" {
+			if vh.OpenFinding("C26", c26FindMergePrefix) {
+				vh.ReportKnown("C26", c26FindMergePrefix, msg)
+				return
+			}
+			vh.NoteViolation(t.Name(), "", `{"sql":["CREATE TABLE t0 (k0 INT PRIMARY KEY, c0 VARBINARY(16) NOT NULL, KEY i2 (c0(1)))","INSERT INTO t0 VALUES (1,0x6100),(2,0x61),(3,0x6100),(4,0x61),(5,0x6100),(6,0x61)","SELECT /*+ MERGE_JOIN(a,b) */ COUNT(*) FROM t0 a JOIN t0 b ON a.c0 = b.c0"],"observed":"`+strings.ReplaceAll(msg, `"`, `'`)+`"}`)
+			t.Errorf("%s", msg)
+		}
+	})
+	t.Run("pinned_lookupjoin_prefix_index", func(t *testing.T) {
+		if msg := c26PinnedLookupPrefix(t, srv, admin); msg != "" {
+			if vh.OpenFinding("C26", c26FindLookupPrefix) {
+				vh.ReportKnown("C26", c26FindLookupPrefix, msg)
+				return
+			}
+			vh.NoteViolation(t.Name(), "", `{"sql":["CREATE TABLE t0 (k0 INT PRIMARY KEY, c0 VARBINARY(16) NOT NULL, KEY i2 (c0(1)))","CREATE TABLE t1 (k0 INT PRIMARY KEY, c1 VARBINARY(16))","INSERT INTO t0 VALUES (1,0x6100),(2,0x61),(3,0x62)","INSERT INTO t1 VALUES (1,0x6100),(2,0x61)","SELECT /*+ JOIN_ORDER(a,b) LOOKUP_JOIN(a,b) */ a.k0, b.k0 FROM t1 a JOIN t0 b ON a.c1 = b.c0"],"observed":"`+strings.ReplaceAll(msg, `"`, `'`)+`"}`)
+			t.Errorf("%s", msg)
+		}
+	})
 	t.Run("pinned_valuerow_null_comparison", func(t *testing.T) {
 		if msg := c26PinnedValueRowNull(t, srv, admin); msg != "" {
 			if vh.OpenFinding("C26", c26FindValueRowNull) {
@@ -666,10 +751,23 @@ func TestVerif_C26(t *testing.T) {
 			}
 		}
 		if rapid.Bool().Draw(rt, "analyze") {
+			// dolt only: the memory engine's ANALYZE panics on empty tables (divide by zero in
+			// memory/stats.go) and its statistics are of no interest here
 			for _, t := range c.tables {
-				c.both(fmt.Sprintf("ANALYZE TABLE `%s`", t.Name))
+				sql := fmt.Sprintf("ANALYZE TABLE `%s`", t.Name)
+				c.script = append(c.script, sql+"; -- dolt only")
+				c.d.MustExec(rt, sql)
 			}
 		}
+		defer func() {
+			for _, k := range []string{"decimal_type_extreme_literal"} {
+				if n := qExcludedLits[k]; n > 0 {
+					rec.Excluded(n)
+					rec.Class("excluded:"+k, n)
+					qExcludedLits[k] = 0
+				}
+			}
+		}()
 		c.commit(madmin)
 		rounds := rapid.IntRange(1, 3).Draw(rt, "rounds")
 		for r := 0; r < rounds; r++ {
